@@ -382,6 +382,10 @@ CallResult perform(Subject& s, const gen::Program& prog, const Op& op, bool* mus
         Operand_ ops[6];
         for (uint32_t k = 0; k < f.op_count; k++) {
           ops[k] = f.ops[k];
+          if ((op.a[3] & 8) && ops[k].is_reg() && (ops[k].as<Reg>().reg_type() == RegType::kVec64 || ops[k].as<Reg>().reg_type() == RegType::kVec128) && !ops[k].as<a64::Vec>().has_element_index()) {
+            a64::Vec v = ops[k].as<a64::Vec>(); Reg flipped = Reg::from_type_and_id(v.reg_type() == RegType::kVec64 ? RegType::kVec128 : RegType::kVec64, v.id());
+            ops[k] = flipped; ops[k].as<a64::Vec>().set_element_type(v.element_type());
+          }
           Rng pr(sim::mix64(uint64_t(op.a[1]) * 0x9E3779B97F4A7C15ull + k));
           if (ops[k].is_label() || (ops[k].is_mem() && ops[k].as<a64::Mem>().has_base_label())) {
             // the form's own label (id 0 of the harvesting holder) means nothing here: always re-select it
@@ -817,6 +821,7 @@ Plan generate(uint64_t seed, bool thorough) {
           op.a[1] = int64_t(r.next() & 0x7fffffffffffll);
           op.a[2] = r.chance(1, 6) ? 0 : int64_t(r.chance(1, 2) ? (1u << r.below(4)) : r.below(64));   // which operands are perturbed (0: the valid form itself)
           op.a[3] = r.chance(2, 3) ? 0 : int64_t(r.below(8));
+          if (r.chance(1, 8)) op.a[3] |= 8;   // every arrangement operand switches between its 64-bit and 128-bit view
           p.ops.push_back(op);
           continue;
         }
